@@ -824,6 +824,92 @@ theorem toXIR_reval (f : Sym → Option Sc) (p : Prog) : toXIR (p.reval f) = toX
   congr 1
   exact List.map_congr_left (fun c _ => toXStmt_reval f _ c)
 
+/-- two values that differ at most in the value held by a non-constant symbolic parameter -/
+def SameButVal (x y : Val) : Prop :=
+  x = y ∨ ∃ e e', x = .sym e ∧ y = .sym e' ∧ e.noVal = e'.noVal ∧ ¬(e.meas = [] ∧ e.frees = [])
+
+theorem reval_same (f : Sym → Option Sc) (v : Val) : SameButVal (v.reval f) v := by
+  cases v with
+  | sym e =>
+    by_cases hc : e.meas = [] ∧ e.frees = []
+    · exact Or.inl (by simp [Val.reval, hc])
+    · exact Or.inr ⟨{ e with val := f e }, e, by simp [Val.reval, hc], rfl, rfl, hc⟩
+  | _ => exact Or.inl rfl
+
+theorem bbArg_text_same {tdm : Bool} {x y : Val} (h : SameButVal x y) :
+    textVal (bbArg tdm x) = textVal (bbArg tdm y) := by
+  rcases h with rfl | ⟨e, e', rfl, rfl, he, hc⟩
+  · rfl
+  · have hpos : e.pos = e'.pos := (congrArg Sym.pos he : e.noVal.pos = e'.noVal.pos)
+    have hmeas : e.meas = e'.meas := (congrArg Sym.meas he : e.noVal.meas = e'.noVal.meas)
+    have hfrees : e.frees = e'.frees := (congrArg Sym.frees he : e.noVal.frees = e'.noVal.frees)
+    have hc' : ¬(e'.meas = [] ∧ e'.frees = []) := by rw [← hmeas, ← hfrees]; exact hc
+    simp only [bbArg, constVal, if_neg hc, if_neg hc']
+    by_cases hm : e.meas = []
+    · have hm' : e'.meas = [] := hmeas ▸ hm
+      simp only [hm, hm', ne_eq, not_true_eq_false, ↓reduceIte, hpos]
+    · have hm' : e'.meas ≠ [] := hmeas ▸ hm
+      simp only [ne_eq, hm, hm', not_false_eq_true, ↓reduceIte, textVal, he]
+
+theorem neg_same {x y : Val} (h : SameButVal x y) :
+    (x.neg = none ∧ y.neg = none) ∨ ∃ a b, x.neg = some a ∧ y.neg = some b ∧ SameButVal a b := by
+  rcases h with rfl | ⟨e, e', rfl, rfl, he, hc⟩
+  · cases hx : x.neg with
+    | none => exact Or.inl ⟨rfl, rfl⟩
+    | some a => exact Or.inr ⟨a, a, rfl, rfl, Or.inl rfl⟩
+  · refine Or.inr ⟨_, _, rfl, rfl, Or.inr ⟨e.negate, e'.negate, rfl, rfl, ?_, hc⟩⟩
+    have hpos : e.pos = e'.pos := (congrArg Sym.pos he : e.noVal.pos = e'.noVal.pos)
+    have hneg : e.neg = e'.neg := (congrArg Sym.neg he : e.noVal.neg = e'.noVal.neg)
+    have hmeas : e.meas = e'.meas := (congrArg Sym.meas he : e.noVal.meas = e'.noVal.meas)
+    have hfrees : e.frees = e'.frees := (congrArg Sym.frees he : e.noVal.frees = e'.noVal.frees)
+    simp only [Sym.negate, Sym.noVal, hpos, hneg, hmeas, hfrees]
+
+theorem map_text_same {tdm : Bool} : ∀ {l l' : List Val}, Rel2 SameButVal l l' →
+    (l.map (bbArg tdm)).map textVal = (l'.map (bbArg tdm)).map textVal := by
+  intro l l' h
+  induction h with
+  | nil => rfl
+  | cons hab _ ih => simp only [List.map_cons, bbArg_text_same hab, ih]
+
+theorem rel2_reval (f : Sym → Option Sc) : ∀ l : List Val, Rel2 SameButVal (l.map (Val.reval f)) l := by
+  intro l
+  induction l with
+  | nil => exact Rel2.nil
+  | cons a l ih => exact Rel2.cons (reval_same f a) ih
+
+/-- **no state between calls (Blackbird writer + text)**: the text written for a command does not depend
+on the values its symbolic parameters hold -/
+theorem toBBOp_reval (f : Sym → Option Sc) (tdm : Bool) (c : Cmd) :
+    (toBBOp tdm (c.reval f)).map textOp = (toBBOp tdm c).map textOp := by
+  obtain ⟨cls, regs, pars, dagger, select, dark, kw⟩ := c
+  unfold toBBOp Cmd.reval
+  simp only
+  split
+  · simp only [Except.map, textOp, map_text_same (rel2_reval f pars)]
+  · have hctor : ctorParams ⟨cls, regs, pars.map (Val.reval f), dagger, select, dark, kw⟩ =
+        (ctorParams ⟨cls, regs, pars, dagger, select, dark, kw⟩).map (Val.reval f) := by
+      simp only [ctorParams]; split <;> rfl
+    rw [hctor]
+    generalize ctorParams ⟨cls, regs, pars, dagger, select, dark, kw⟩ = ps
+    cases dagger with
+    | false =>
+      simp only [Bool.false_eq_true, ↓reduceIte, bind, Except.bind, Except.map, textOp,
+        map_text_same (rel2_reval f ps)]
+    | true =>
+      simp only [↓reduceIte]
+      split
+      · cases ps with
+        | nil => rfl
+        | cons a as =>
+          simp only [List.map_cons, negFirst]
+          rcases neg_same (reval_same f a) with ⟨h1, h2⟩ | ⟨x, y, h1, h2, hxy⟩
+          · simp only [h1, h2]
+          · simp only [h1, h2, bind, Except.bind, Except.map, textOp]
+            have := map_text_same (tdm := tdm) (Rel2.cons hxy (rel2_reval f as))
+            simp only [List.map_cons] at this ⊢
+            rw [this]
+      · rfl
+
 /-! ### `_factor_out_pi` -/
 
 theorem piTerm_aux (m : Int) (g : Nat) (hg : (g : Int) ∣ m) (hg2 : g ∣ 12) (hpos : 0 < g) :
